@@ -455,8 +455,24 @@ class Checker:
         self.shrunk: set = set()
         self.version_votes = {'current': 0, 'fixed': 0, 'both': 0, 'neither': 0}
         self.pending = []      # deferred comparisons: (fn, args)
+        # register walks with a known defect (idlist, reset, measure): does the implementation follow the QRegs model of
+        # the code as it is ('current') or the specification the C17_regs_* theorems compare against ('repaired',
+        # i.e. after fixes/C17-idlist|reset|measure.patch)?  decided per call site and run, like flatten/flatten_fixed
+        self.regs_votes = {k: {'current': 0, 'repaired': 0, 'both': 0} for k in ('conv', 'reset', 'meas')}
+        # creg declarations of the encoder: QProg.encode_with (current) or encode_with_fixed (fixes/C17-creg.patch)
+        self.creg_votes = {'current': 0, 'fixed': 0, 'both': 0}
 
     # ---- classification of an implementation error / wrong value -------------
+    def regs_vote(self, site: str, model: str, impl: str, spec) -> bool:
+        """True if impl is accounted for by the model of the current code or by the specification"""
+        if impl == model:
+            self.regs_votes[site]['both' if (spec is None or spec == model) else 'current'] += 1
+            return True
+        if spec is not None and impl == spec:
+            self.regs_votes[site]['repaired'] += 1
+            return True
+        return False
+
     def exp_violation(self, case, sem, expected, observed, model_cur_ok: bool | None):
         """The implementation's value of a generated expression is wrong (or it raised)."""
         used = fns_used(sem) if sem is not None else set()
@@ -894,9 +910,11 @@ def finish_pending(ck: Checker, M: Model):
     for kind, d in ck.pending:
         if kind == 'expr':
             ck.finish_expression(M, d)
+        elif kind == 'prog':
+            finish_prog(ck, M, d)
         elif kind == 'conv':
             m = M.a(d['qi'])
-            if m != d['impl']:
+            if not ck.regs_vote('conv', m, d['impl'], d['spec']):
                 ctx.violation(dict(call='convert_qubit_ids_to_indices', kind='model-mismatch'), d['case'], m, d['impl'],
                               'QRegs.convert_qubit_ids_to_indices and the implementation disagree',
                               kind='correspondence', corr='coq/qasm/QRegs.v vs visitor.convert_qubit_ids_to_indices')
@@ -919,7 +937,7 @@ def finish_pending(ck: Checker, M: Model):
                               f'{d["what"]}: operation location differs from the register arithmetic')
         elif kind == 'reset':
             m = M.a(d['qi'])
-            if m != d['impl']:
+            if not ck.regs_vote('reset', m, d['impl'], d['spec']):
                 ctx.violation(dict(call='reset', kind='model-mismatch'), d['case'], m, d['impl'],
                               'QRegs.reset_locs and the implementation disagree', kind='correspondence',
                               corr='coq/qasm/QRegs.v vs visitor.reset')
@@ -928,7 +946,7 @@ def finish_pending(ck: Checker, M: Model):
                               '`reset r;` resets the qubits of the FIRST declared register whatever register is named')
         elif kind == 'meas':
             m = M.a(d['qi'])
-            if m != d['impl']:
+            if not ck.regs_vote('meas', m, d['impl'], d['spec']):
                 ctx.violation(dict(call='measure', kind='model-mismatch'), d['case'], m, d['impl'],
                               'QRegs.measure_keys and the implementation disagree', kind='correspondence',
                               corr='coq/qasm/QRegs.v vs visitor.measure')
@@ -1513,6 +1531,591 @@ def gen_rt_circuit(I: Impl, rng, pool, n, nops):
     return c
 
 
+
+# =============================================================================
+# program-level encoder / decoder model (coq/qasm/QProg.v): abstraction of real circuits,
+# token-wise comparison of Circuit.to('qasm') with QProg.toks_prog (encode_with ...),
+# comparison of the visitor's op_list with QProg.decode_prog, and the round-trip oracle
+# for circuits with barriers / measurements / resets
+# =============================================================================
+PAREN_SPELLINGS = {'rxx(pi/2)': 'rxx__pi_2', 'ryy(pi/2)': 'ryy__pi_2', 'rzz(pi/2)': 'rzz__pi_2'}
+NO_DECODE_MODEL = {'rxx(pi/2)', 'ryy(pi/2)', 'rzz(pi/2)', 'identity1'}   # alias spellings: decode to another gate object
+PROG_HEADER = 'OPENQASM 2.0;\ninclude "qelib1.inc";\n'
+
+
+class Unsupported(Exception):
+    pass
+
+
+def _sl(items) -> str:
+    return '[' + ' '.join(items) + ']'
+
+
+class ProgAbs:
+    """abstraction of a real Circuit into the input of the extracted QProg model.  A CircuitGate operation is
+    represented by its body with the slices of the OPERATION's parameters; circuitgate_<hash> names are numbered by
+    the gate's shape (a hash shared by two shapes = the injectivity assumption of the theorems is violated)"""
+
+    def __init__(self, I: Impl, T):
+        self.I, self.T = I, T
+        self.lits, self.cregs, self.shapes = Interner(), Interner(), Interner()
+        self.names: dict[int, str] = {}
+        self.hash_shape: dict[str, int] = {}
+        self.collision = False
+        self.spellings: set = set()
+        self.libdefs: set = set()
+        self.circ_gates = 0
+        self.sp_of_gid: dict[int, str] = {}
+
+    def gid(self, g) -> int:
+        for i, h in enumerate(self.T['gates']):
+            if type(h) is type(g) and h == g:
+                return i
+        raise Unsupported('gate not among the interned library gates: %r' % (g,))
+
+    def lit(self, x) -> str:
+        s = str(x)
+        if not re.fullmatch(r'-?' + NUM_RE, s):
+            raise Unsupported('parameter prints as %s' % s)
+        return '[neg %d]' % self.lits(s[1:]) if s.startswith('-') else str(self.lits(s))
+
+    def uop(self, gate, loc, params, top=True):
+        from bqskit.ir.gates import CircuitGate, FrozenParameterGate
+        if isinstance(gate, CircuitGate):
+            self.circ_gates += 1
+            body, keys, idx = [], [], 0
+            for bop in gate._circuit:
+                k = bop.num_params
+                a, key = self.uop(bop.gate, bop.location, list(params[idx:idx + k]), top=False)
+                body.append(a)
+                keys.append(key)
+                idx += k
+            if idx != len(params):
+                raise Unsupported('operation has %d parameters, its CircuitGate %d' % (len(params), idx))
+            nv = gate.num_qudits
+            key = 'C%d%s' % (nv, _sl(keys))
+            sid = self.shapes(key) + 1
+            self.names.setdefault(sid, '[%d %d %s]' % (sid, nv, _sl(body)))
+            hname = 'circuitgate_%d' % abs(hash(gate))
+            if self.hash_shape.setdefault(hname, sid) != sid:
+                self.collision = True
+            return '[circ %d %s %s]' % (nv, _sl(body), fmt_ints(loc)), key + '@' + fmt_ints(loc)
+        if isinstance(gate, FrozenParameterGate):
+            if not top:
+                raise Unsupported('FrozenParameterGate inside a CircuitGate (finding C17-frozen-in-circuitgate)')
+            params = gate.get_full_params(params)
+            gate = gate.gate
+        if type(gate).__name__ in ('BarrierPlaceholder', 'MeasurementPlaceholder', 'Reset'):
+            raise Unsupported('placeholder inside a CircuitGate')
+        g = self.gid(gate)
+        sp = _spelling(gate)
+        if sp is None:
+            raise Unsupported('gate without a spelling')
+        self.spellings.add(sp)
+        self.sp_of_gid[g] = sp
+        d = gate.get_qasm_gate_def()
+        if d:
+            self.libdefs.add(d)
+        return '[lib %d %s %s]' % (g, fmt_ints(loc), _sl(self.lit(x) for x in params)), 'L%d@%s#%d' % (g, fmt_ints(loc), len(params))
+
+    def cop(self, op) -> str:
+        g, kind = op.gate, type(op.gate).__name__
+        if kind == 'BarrierPlaceholder':
+            return '[barrier %s]' % fmt_ints(op.location)
+        if kind == 'Reset':
+            return '[reset %s]' % fmt_ints(op.location)
+        if kind == 'MeasurementPlaceholder':
+            cr = _sl('[%d %d]' % (self.cregs(str(n)), int(sz)) for n, sz in g.classical_regs)
+            ms = _sl('[%d %d %d]' % (int(k), self.cregs(str(v[0])), int(v[1])) for k, v in g.measurements.items())
+            return '[meas %s %s %s]' % (cr, ms, fmt_ints(op.location))
+        return '[u %s]' % self.uop(g, op.location, list(op.params))[0]
+
+    # ---- decoded side ----
+    def iop(self, g, loc, params) -> str:
+        from bqskit.ir.gates import CircuitGate
+        if isinstance(g, CircuitGate):
+            return '[circ %d %s %s]' % (g.num_qudits, _sl(self.iop(b.gate, b.location, list(b.params)) for b in g._circuit), fmt_ints(loc))
+        return '[prim %d %s %s]' % (self.gid(g), fmt_ints(loc), _sl(self.symlit(x) for x in params))
+
+    def symlit(self, x) -> str:
+        s = str(x)
+        if not re.fullmatch(r'-?' + NUM_RE, s):
+            raise Unsupported('decoded parameter prints as %s' % s)
+        return '[neg [num %d]]' % self.lits(s[1:]) if s.startswith('-') else '[num %d]' % self.lits(s)
+
+    def decoded(self, vis) -> str:
+        out = []
+        for op in vis.op_list:
+            g, kind = op.gate, type(op.gate).__name__
+            if kind == 'BarrierPlaceholder':
+                out.append('[barrier %s]' % fmt_ints(op.location))
+            elif kind == 'Reset':
+                out.append('[reset %s]' % fmt_ints(op.location))
+            elif kind == 'MeasurementPlaceholder':
+                items = list(g.measurements.items())
+                if len(items) != 1:
+                    raise Unsupported('decoded measurement with %d entries' % len(items))
+                k, (cn, ci) = items[0]
+                out.append('[meas %d %d %d %s]' % (int(k), self.cregs(str(cn)), int(ci), fmt_ints(op.location)))
+            else:
+                out.append('[u %s]' % self.iop(g, op.location, list(op.params)))
+        cr = _sl('[%d %d]' % (self.cregs(str(r.name)), int(r.size)) for r in vis.classical_regs)
+        return '[%s %s]' % (cr, _sl(out))
+
+
+PTOK = re.compile(r'\s*(?:(?P<cg>circuitgate_\d+)|(?P<arrow>->)|(?P<num>' + NUM_RE + r')|(?P<id>[A-Za-z_]\w*)|(?P<sym>[-()\[\]{},;]))')
+PKEYWORDS = {'qreg', 'creg', 'gate', 'barrier', 'measure', 'reset'}
+
+
+def real_prog_tokens(pa: ProgAbs, text: str):
+    """tokens of the encoder's output in the vocabulary of QProg.ptok (after the fixed header; the fixed definition
+    texts of library gates - ecr, iswap, identityN - are removed: the decoder model ignores them)"""
+    if not text.startswith(PROG_HEADER):
+        return ['BADHEADER']
+    text = text[len(PROG_HEADER):]
+    for d in sorted(pa.libdefs, key=len, reverse=True):
+        text = text.replace(d, '\n')
+    for k, v in PAREN_SPELLINGS.items():
+        text = text.replace(k, v)
+    back = {v: k for k, v in PAREN_SPELLINGS.items()}
+    out, pos, depth, minus, prev = [], 0, 0, False, ''
+    while pos < len(text):
+        m = PTOK.match(text, pos)
+        if not m:
+            if text[pos:].strip() == '':
+                break
+            out.append('BAD:' + text[pos:pos + 10].strip())
+            break
+        pos = m.end()
+        if m.group('cg'):
+            tok = 'c%d' % pa.hash_shape.get(m.group('cg'), 0)
+        elif m.group('arrow'):
+            tok = '->'
+        elif m.group('num'):
+            t = m.group('num')
+            if depth > 0:
+                tok = ('-n' if minus else 'n') + str(pa.lits(t))
+                minus = False
+            else:
+                tok = '#' + t
+        elif m.group('id'):
+            t = m.group('id')
+            if t in PKEYWORDS or t == 'q' or re.fullmatch(r'[qp]\d+', t):
+                tok = t
+            elif prev in ('creg', '->'):
+                tok = 'r%d' % pa.cregs(t)
+            else:
+                tok = 's:' + back.get(t, t)
+        else:
+            t = m.group('sym')
+            if t == '-':
+                if depth == 0 or minus:
+                    out.append('BAD:-')
+                minus = True
+                continue
+            depth += (t == '(') - (t == ')')
+            tok = {'[': '<', ']': '>'}.get(t, t)
+        out.append(tok)
+        prev = tok
+    return out
+
+
+def split_prog_tokens(toks):
+    """(qreg statement, definition blocks, creg statements, operation tokens)"""
+    head, rest = toks[:6], toks[6:]
+    blocks, cregs = [], []
+    i = 0
+    while i < len(rest):
+        if rest[i] == 'gate' and '}' in rest[i:]:
+            j = rest.index('}', i)
+            blocks.append(' '.join(rest[i:j + 1]))
+            i = j + 1
+        elif rest[i] == 'creg' and ';' in rest[i:]:
+            j = rest.index(';', i)
+            cregs.append(' '.join(rest[i:j + 1]))
+            i = j + 1
+        else:
+            break
+    return ' '.join(head), blocks, cregs, ' '.join(rest[i:])
+
+
+def defs_before_use(blocks, ops) -> str | None:
+    """every circuitgate used in a definition body / an operation line is defined by an EARLIER block"""
+    seen = set()
+    for b in blocks:
+        t = b.split(' ')
+        body = t[t.index('{') + 1:] if '{' in t else []
+        for x in body:
+            if re.fullmatch(r'c\d+', x) and x not in seen:
+                return '%s used in the body of %s before its definition' % (x, t[1])
+        seen.add(t[1])
+    for x in ops.split(' '):
+        if re.fullmatch(r'c\d+', x) and x not in seen:
+            return '%s used by an operation but never defined' % x
+    return None
+
+
+def check_prog_model(ck: Checker, M: Model, circ, text, case):
+    """queue the QProg correspondence for one real circuit and its encoder output"""
+    ctx, I = ck.ctx, ck.I
+    T = tables()
+    from bqskit.ir.gates import CircuitGate
+    pa = ProgAbs(I, T)
+    try:
+        ops = list(circ)
+        cops = [pa.cop(op) for op in ops]
+        gs = []
+        for g in circ.gate_set:
+            if isinstance(g, CircuitGate) or type(g).__name__ == 'MeasurementPlaceholder':
+                rep = next((k for k, op in enumerate(ops) if op.gate is g), None)
+                if rep is None:
+                    rep = next((k for k, op in enumerate(ops) if hash(op.gate) == hash(g) and op.gate == g), None)
+                if rep is None:
+                    raise Unsupported('gate of gate_set not found among the operations')
+                gs.append(cops[rep])
+    except Unsupported as e:
+        ctx.count('prog_model_unsupported')
+        ctx.cov.setdefault('prog_model_unsupported_reasons', {})
+        r = str(e)[:40]
+        ctx.cov['prog_model_unsupported_reasons'][r] = ctx.cov['prog_model_unsupported_reasons'].get(r, 0) + 1
+        return
+    if pa.collision:
+        ctx.count('prog_model_hash_collision')          # assumption nm injective violated: not comparable
+        return
+    names = _sl(pa.names[k] for k in sorted(pa.names))
+    n = circ.num_qudits
+    real = real_prog_tokens(pa, text)
+    has_meas = any(c.startswith('[meas ') for c in cops)
+    d = dict(case=case, pa=pa, real=real, n=n,
+             qt=M.q('ptoks %s %d %s %s' % (names, n, _sl(gs), _sl(cops))),
+             qok=M.q('pok %s %d %s %s' % (names, n, _sl(gs), _sl(cops))))
+    if has_meas:
+        # the encoder after fixes/C17-creg.patch (creg declared once); which one the implementation is, is decided per run
+        d['qt_fixed'] = M.q('ptoksv 1 %s %d %s %s' % (names, n, _sl(gs), _sl(cops)))
+    ctx.count('prog_model_tokens')
+    if pa.circ_gates:
+        ctx.count('prog_model_with_circuitgates')
+    if not (pa.spellings & NO_DECODE_MODEL):
+        try:
+            vis = I.V.OPENQASMVisitor()
+            vis.visit_topdown(I.P.parse(text))
+            d['dec'] = pa.decoded(vis)
+        except Unsupported:
+            d['dec'] = None
+        except Exception as e:  # noqa
+            d['dec'] = exc_class(I, e)
+            d['dec_err'] = type(e).__name__ + ': ' + str(e)[:100]
+        if d['dec'] is not None:
+            d['qr'] = M.q('prt %s 1 %s %d %s %s' % (names, _sl(I.bound), n, _sl(gs), _sl(cops)))
+            if has_meas:
+                d['qr_fixed'] = M.q('prtv 1 %s 1 %s %d %s %s' % (names, _sl(I.bound), n, _sl(gs), _sl(cops)))
+            d['qe'] = M.q('pexpect %s' % _sl(cops))
+            ctx.count('prog_model_decode')
+    ck.pending.append(('prog', d))
+
+
+def _model_prog_tokens(pa: ProgAbs, out: str):
+    mt = []
+    for t in out.split('_'):
+        if re.fullmatch(r's\d+', t):
+            t = 's:' + pa.sp_of_gid.get(int(t[1:]), '?')
+        mt.append(t)
+    return split_prog_tokens(mt)
+
+
+def _prog_token_diff(real, model):
+    rh, rb, rc, ro = real
+    mh, mb, mc, mo = model
+    if rh != mh:
+        return ('register declaration', mh, rh)
+    if set(rb) != set(mb):
+        return ('gate definition blocks', sorted(set(mb) - set(rb))[:2], sorted(set(rb) - set(mb))[:2])
+    if rc != mc:
+        return ('creg declarations', mc, rc)
+    if ro != mo:
+        return ('operation statements', mo[:600], ro[:600])
+    return None
+
+
+def finish_prog(ck: Checker, M: Model, d):
+    ctx, pa = ck.ctx, d['pa']
+    real = split_prog_tokens(d['real'])
+    bad = _prog_token_diff(real, _model_prog_tokens(pa, M.a(d['qt'])))
+    variant = 'current'
+    if 'qt_fixed' in d:
+        bad_fixed = _prog_token_diff(real, _model_prog_tokens(pa, M.a(d['qt_fixed'])))
+        if bad is None and bad_fixed is None:
+            variant = 'both'
+        elif bad is not None and bad_fixed is None:
+            variant, bad = 'fixed', None
+        ck.creg_votes[variant] += 1
+    if bad:
+        ctx.violation(dict(call='encode', kind='model-mismatch', part=bad[0]), d['case'], bad[1], bad[2],
+                      'the text printed by Circuit.to(\'qasm\') differs token-wise from QProg.toks_prog (encode_with ...): ' + bad[0],
+                      kind='correspondence', corr='coq/qasm/QProg.v encode_with/toks_prog vs qasm2.encode, get_qasm, get_qasm_gate_def')
+    else:
+        order = defs_before_use(real[1], real[3])
+        if order:
+            ctx.violation(dict(call='encode', symptom='definition-order'), d['case'], 'every circuitgate defined before it is used', order,
+                          'the encoder prints a gate definition after its first use')
+    ok = M.a(d['qok']) == 'T'
+    ctx.count('prog_model_theorem_applies' if ok else 'prog_model_outside_theorem')
+    if 'qr' in d:
+        m = M.a(d['qr_fixed']) if (variant == 'fixed' and 'qr_fixed' in d) else M.a(d['qr'])
+        if m != d['dec']:
+            ctx.violation(dict(call='decode', kind='model-mismatch', part='program'), d['case'], m[:800], (d['dec'] or '')[:800] + ' ' + d.get('dec_err', ''),
+                          'QProg.decode_prog on the printed statements and the visitor\'s op_list disagree',
+                          kind='correspondence', corr='coq/qasm/QProg.v decode_prog vs OPENQASMVisitor (creg, gatedecl/gatep/rbracket, gate, barrier, measure, reset)')
+        if ok and variant != 'fixed':
+            # C17_program_roundtrip instantiated: the model's own decode equals `expect`
+            if not m.endswith(' ' + M.a(d['qe']) + ']'):
+                ctx.broken_obligation('C17_program_roundtrip: extracted decode_prog (encode_with gs c) differs from expect although circ_okb holds',
+                                      (m[:300], M.a(d['qe'])[:300]))
+
+
+def placeholder_timeline(circ_ops, n):
+    """per qubit: what happens to it, in order (independent of the model)"""
+    seqs = [[] for _ in range(n)]
+    for op in circ_ops:
+        g, kind = op.gate, type(op.gate).__name__
+        for q in op.location:
+            if kind == 'MeasurementPlaceholder':
+                seqs[q].append(('measure', tuple(g.measurements.get(q, ('?', -1)))))
+            elif kind == 'BarrierPlaceholder':
+                seqs[q].append(('barrier', tuple(op.location)))
+            elif kind == 'Reset':
+                seqs[q].append(('reset',))
+            else:
+                seqs[q].append(('gate', g, tuple(op.location), tuple(float(x) for x in op.params)))
+    return seqs
+
+
+def check_placeholder_roundtrip(ck: Checker, M: Model, circ, key, label):
+    """property oracle on the implementation: decode(encode(c)) succeeds and every qubit sees the same operations
+    (gates with equal parameters, barriers, resets, measurements into the same classical bit) in the same order"""
+    ctx, I = ck.ctx, ck.I
+    ctx.case(key, nontrivial=circ.num_operations > 0)
+    try:
+        text = I.L.encode(circ)
+    except Exception as e:  # noqa
+        ctx.violation(dict(call='encode', symptom='raises', gate=label), dict(kind='placeholder-roundtrip', label=label), 'qasm text', repr(e)[:200],
+                      'encoder raises on a circuit with barriers / measurements / resets')
+        return
+    case = dict(kind='placeholder-roundtrip', text=text[:3000], label=label)
+    check_prog_model(ck, M, circ, text, case)
+    try:
+        back = I.L.decode(text)
+    except Exception as e:  # noqa
+        if 'Classical register redeclared' in str(e):
+            ctx.violation(dict(call='roundtrip', symptom='creg-redeclared'), case, 'decodes', type(e).__name__ + ': ' + str(e)[:100],
+                          'a circuit with two different MeasurementPlaceholders is printed with its classical register declared '
+                          'twice; the decoder rejects the text')
+        else:
+            ctx.violation(dict(call='roundtrip', symptom='placeholder-rejected', gate=label), case, 'decodes', type(e).__name__ + ': ' + str(e)[:100],
+                          'the decoder rejects the encoder\'s own output')
+        return
+    a, b = placeholder_timeline(list(circ), circ.num_qudits), placeholder_timeline(list(back), back.num_qudits)
+    if back.num_qudits != circ.num_qudits:
+        ctx.violation(dict(call='roundtrip', symptom='width-changed'), case, circ.num_qudits, back.num_qudits, 'number of qubits changed')
+        return
+    for q, (sa, sb) in enumerate(zip(a, b)):
+        same = len(sa) == len(sb) and all(
+            x[0] == y[0] and (x == y if x[0] != 'gate' else (x[2] == y[2] and ((x[1] == y[1] and x[3] == y[3]) or _same_unitary(I, x, y))))
+            for x, y in zip(sa, sb))
+        if not same:
+            ctx.violation(dict(call='roundtrip', symptom='per-qubit-order-changed', gate=label), dict(case, qubit=q),
+                          [repr(x)[:70] for x in sa], [repr(x)[:70] for x in sb],
+                          'decode(encode(circuit)) changes what happens to a qubit (placeholders included)')
+            return
+
+
+def _same_unitary(I, x, y) -> bool:
+    np = I.np
+    try:
+        return float(np.max(np.abs(np.array(x[1].get_unitary(list(x[3])).numpy) - np.array(y[1].get_unitary(list(y[3])).numpy)))) < 1e-9
+    except Exception:  # noqa
+        return False
+
+
+def gen_placeholder_circuit(I: Impl, rng, pool, nest_pool):
+    """random circuit over spelled library gates + small CircuitGates with barriers, resets and measurements;
+    returns (circuit, label).  ~10 % have two different measurement gates (finding C17-creg)"""
+    from bqskit.ir.gates import BarrierPlaceholder, MeasurementPlaceholder, Reset, CircuitGate
+    from bqskit.ir.operation import Operation
+    n = rng.randint(1, 4)
+    c = I.Circuit(n)
+    label = 'one-measure'
+    for _ in range(rng.randint(1, 9)):
+        r = rng.random()
+        if r < 0.2:
+            k = rng.randint(1, n)
+            c.append(Operation(BarrierPlaceholder(k), rng.sample(range(n), k)))
+        elif r < 0.32:
+            c.append(Operation(Reset(), [rng.randrange(n)]))
+        elif r < 0.45 and n >= 2:
+            w = rng.randint(1, min(3, n))
+            body = gen_nested_body(I, rng, nest_pool, w, rng.choice([0, 1, 1, 2]))
+            c.append_gate(CircuitGate(body), rng.sample(range(n), w), body.params)
+        else:
+            g = rng.choice(pool)[0]
+            if g.num_qudits <= n:
+                c.append_gate(g, rng.sample(range(n), g.num_qudits), [round(rng.uniform(-4, 4), rng.choice([2, 6, 15])) for _ in range(g.num_params)])
+    r = rng.random()
+    if r < 0.75:
+        qs = sorted(rng.sample(range(n), rng.randint(1, n)))
+        cregs = [('c', n)] + ([('m', 2)] if rng.random() < 0.3 else [])
+        if r < 0.10 and len(qs) >= 2:
+            label = 'two-measures'
+            for j, q in enumerate(qs[:2]):
+                c.append(Operation(MeasurementPlaceholder(list(cregs), {q: ('c', j)}), [q]))
+        else:
+            ms = {q: (('m', j) if (len(cregs) == 2 and j < 2 and rng.random() < 0.3) else ('c', j)) for j, q in enumerate(qs)}
+            c.append(Operation(MeasurementPlaceholder(list(cregs), ms), qs))
+            if rng.random() < 0.15:
+                label = 'same-measure-twice'
+                c.append(Operation(MeasurementPlaceholder(list(cregs), dict(ms)), qs))
+    else:
+        label = 'no-measure'
+    return c, label
+
+
+def directed_placeholder(I: Impl):
+    from bqskit.ir.gates import BarrierPlaceholder, MeasurementPlaceholder, Reset, HGate, CNOTGate, RZGate
+    from bqskit.ir.operation import Operation
+    out = []
+    c = I.Circuit(3)
+    c.append_gate(HGate(), 0); c.append_gate(CNOTGate(), (0, 2)); c.append(Operation(BarrierPlaceholder(3), [2, 0, 1]))
+    c.append(Operation(Reset(), [1])); c.append_gate(RZGate(), 1, [-0.25])
+    c.append(Operation(MeasurementPlaceholder([('c', 3)], {0: ('c', 0), 2: ('c', 1)}), [0, 2]))
+    out.append((c, 'one-measure'))
+    # what the decoder itself builds for `measure q[0] -> c[0]; measure q[1] -> c[1];`
+    try:
+        d = I.L.decode('OPENQASM 2.0;\ninclude "qelib1.inc";\nqreg q[2];\ncreg c[2];\nh q[0];\nmeasure q[0] -> c[0];\nmeasure q[1] -> c[1];\n')
+        out.append((d, 'two-measures'))
+        d = I.L.decode('OPENQASM 2.0;\ninclude "qelib1.inc";\nqreg q[2];\ncreg c[2];\nbarrier q[0], q[1];\nreset q[1];\nmeasure q -> c;\n')
+        out.append((d, 'one-measure'))
+    except Exception:  # noqa
+        pass
+    return out
+
+
+# =============================================================================
+# bqskit.ext translators: structural check (python ast, fail-closed) that each of the six
+# functions is exactly  foreign object -> its own QASM dump -> OPENQASM2Language().decode
+# resp.  OPENQASM2Language().encode -> the foreign QASM loader, with nothing else done
+# to the circuit - so they inherit the encoder/decoder guarantees (the foreign
+# dump/load functions themselves are exercised by the translator oracle, not modelled)
+# =============================================================================
+EXT_TRANSLATORS = {
+    # module -> (to_bqskit fn, allowed dump calls, from_bqskit fn, allowed load calls)
+    'qiskit': ('qiskit_to_bqskit', {'qasm2.dumps'}, 'bqskit_to_qiskit', {'QuantumCircuit.from_qasm_str'}),
+    'cirq': ('cirq_to_bqskit', {'cirq.qasm'}, 'bqskit_to_cirq', {'circuit_from_qasm'}),
+    'pytket': ('pytket_to_bqskit', {'circuit_to_qasm_str'}, 'bqskit_to_pytket', {'circuit_from_qasm_str'}),
+}
+
+
+def _dotted(n) -> str | None:
+    if isinstance(n, ast.Name):
+        return n.id
+    if isinstance(n, ast.Attribute):
+        b = _dotted(n.value)
+        return None if b is None else b + '.' + n.attr
+    return None
+
+
+def _is_lang_call(n, method: str):
+    """OPENQASM2Language().<method>(<one positional argument>) -> that argument, else None"""
+    if (isinstance(n, ast.Call) and isinstance(n.func, ast.Attribute) and n.func.attr == method and not n.keywords
+            and len(n.args) == 1 and isinstance(n.func.value, ast.Call) and _dotted(n.func.value.func) == 'OPENQASM2Language'
+            and not n.func.value.args and not n.func.value.keywords):
+        return n.args[0]
+    return None
+
+
+def _plain_statements(fn: ast.FunctionDef):
+    """body without docstring and without `try: <imports> except ImportError: raise ImportError(...)`; None if a
+    try block does anything else"""
+    out = []
+    for k, st in enumerate(fn.body):
+        if k == 0 and isinstance(st, ast.Expr) and isinstance(st.value, ast.Constant) and isinstance(st.value.value, str):
+            continue
+        if isinstance(st, ast.Try):
+            ok = (all(isinstance(x, (ast.Import, ast.ImportFrom)) for x in st.body) and not st.orelse and not st.finalbody
+                  and all(_dotted(h.type) == 'ImportError' and len(h.body) == 1 and isinstance(h.body[0], ast.Raise) for h in st.handlers))
+            if not ok:
+                return None
+            continue
+        out.append(st)
+    return out
+
+
+def ext_translator_shape(src: str, to_fn: str, dumps: set, from_fn: str, loads: set) -> str | None:
+    """None if both functions are pure QASM paths, else a description of the first deviation"""
+    tree = ast.parse(src)
+    fns = {n.name: n for n in tree.body if isinstance(n, ast.FunctionDef)}
+    for name in (to_fn, from_fn):
+        if name not in fns:
+            return f'function {name} not found'
+        if len(fns[name].args.args) != 1 or fns[name].args.vararg or fns[name].args.kwarg or fns[name].args.kwonlyargs or fns[name].decorator_list:
+            return f'{name}: unexpected signature / decorators'
+    imp = [n for n in tree.body if isinstance(n, ast.ImportFrom) and n.module == 'bqskit.ir.lang.qasm2'
+           and any(a.name == 'OPENQASM2Language' and a.asname is None for a in n.names)]
+    if not imp:
+        return 'OPENQASM2Language is not imported from bqskit.ir.lang.qasm2'
+    if any(isinstance(n, (ast.Assign, ast.AugAssign, ast.AnnAssign)) and 'OPENQASM2Language' in ast.dump(n) for n in tree.body):
+        return 'OPENQASM2Language is rebound at module level'
+    # foreign -> bqskit
+    f = fns[to_fn]
+    arg = f.args.args[0].arg
+    body = _plain_statements(f)
+    if body is None:
+        return f'{to_fn}: a try block does more than importing'
+    if len(body) == 2 and isinstance(body[0], ast.Assign) and len(body[0].targets) == 1 and isinstance(body[0].targets[0], ast.Name) \
+            and isinstance(body[1], ast.Return) and isinstance(body[1].value, ast.Name) and body[1].value.id == body[0].targets[0].id:
+        val = body[0].value
+    elif len(body) == 1 and isinstance(body[0], ast.Return):
+        val = body[0].value
+    else:
+        return f'{to_fn}: body is not `circuit = OPENQASM2Language().decode(...)`; `return circuit` ({len(body)} statements)'
+    inner = _is_lang_call(val, 'decode')
+    if inner is None:
+        return f'{to_fn}: the result is not OPENQASM2Language().decode(...)'
+    if not (isinstance(inner, ast.Call) and _dotted(inner.func) in dumps and not inner.keywords and len(inner.args) == 1
+            and isinstance(inner.args[0], ast.Name) and inner.args[0].id == arg):
+        return f'{to_fn}: the decoded text is not {sorted(dumps)}({arg})'
+    # bqskit -> foreign
+    f = fns[from_fn]
+    arg = f.args.args[0].arg
+    body = _plain_statements(f)
+    if body is None:
+        return f'{from_fn}: a try block does more than importing'
+    if not (len(body) == 1 and isinstance(body[0], ast.Return)):
+        return f'{from_fn}: body is not a single return ({len(body)} statements)'
+    val = body[0].value
+    if not (isinstance(val, ast.Call) and _dotted(val.func) in loads and not val.keywords and len(val.args) == 1):
+        return f'{from_fn}: the result is not {sorted(loads)}(...)'
+    inner = _is_lang_call(val.args[0], 'encode')
+    if not (isinstance(inner, ast.Name) and inner.id == arg):
+        return f'{from_fn}: the loaded text is not OPENQASM2Language().encode({arg})'
+    return None
+
+
+def check_ext_translators_ast(ctx: vf.Ctx, I: Impl):
+    import bqskit
+    root = Path(bqskit.__file__).resolve().parent / 'ext'
+    res = {}
+    for mod, (to_fn, dumps, from_fn, loads) in EXT_TRANSLATORS.items():
+        f = root / mod / 'translate.py'
+        try:
+            why = ext_translator_shape(f.read_text(), to_fn, dumps, from_fn, loads)
+        except Exception as e:  # noqa
+            why = 'cannot be analysed: ' + repr(e)[:100]
+        res[mod] = 'qasm-path-only' if why is None else why
+        if why is not None:
+            ctx.broken_obligation(f'bqskit/ext/{mod}/translate.py is no longer a pure OpenQASM path (the translators then do not '
+                                  'inherit the C17 guarantees; extend the translator oracle)', why)
+    ctx.cov['ext_translators_structure'] = res
+
 # =============================================================================
 # run
 # =============================================================================
@@ -1808,6 +2411,14 @@ def run(ctx: vf.Ctx):
     ctx.cov['implementation_flatten_version'] = impl_version
     if impl_version == 'inconsistent':
         ctx.broken_obligation('the implementation matches QExp.flatten on some trees and QExp.flatten_fixed on others', str(v))
+    ctx.cov['regs_version_votes'] = ck.regs_votes
+    ctx.cov['implementation_regs_version'] = {}
+    for site, rv in ck.regs_votes.items():
+        ver = 'inconsistent' if (rv['current'] and rv['repaired']) else 'repaired' if rv['repaired'] else 'current' if rv['current'] else 'undetermined'
+        ctx.cov['implementation_regs_version'][site] = ver
+        if ver == 'inconsistent':
+            ctx.broken_obligation(f'register walk `{site}`: the implementation follows the QRegs model of the current code on some '
+                                  'inputs and the specification on others', str(rv))
 
     lap('model')
     # ---- (i) round trips ------------------------------------------------------------------
@@ -1834,6 +2445,7 @@ def run(ctx: vf.Ctx):
             t = check_roundtrip(ck, c, ('rt-nested', repr(_ops_repr(c))))
             if t:
                 check_gate_defs(ck, M2, c, t, dict(kind='roundtrip', text=t[:3000], ops=_ops_repr(c), n=c.num_qudits))
+                check_prog_model(ck, M2, c, t, dict(kind='roundtrip', text=t[:3000], ops=_ops_repr(c), n=c.num_qudits))
             ctx.count('roundtrip_nested_directed')
         for i in range(ctx.n(250, 6000)):
             n = rng.randint(1, 5)
@@ -1858,6 +2470,8 @@ def run(ctx: vf.Ctx):
             t = check_roundtrip(ck, c, ('rt', i, repr(_ops_repr(c))))
             if t and circuit_gates_of(c):
                 check_gate_defs(ck, M2, c, t, dict(kind='roundtrip', text=t[:3000], ops=_ops_repr(c), n=c.num_qudits))
+            if t:
+                check_prog_model(ck, M2, c, t, dict(kind='roundtrip', text=t[:3000], ops=_ops_repr(c), n=c.num_qudits))
             ctx.count('roundtrip_random')
             if i == 0 and t:
                 ctx.sample(dict(roundtrip_text=t[:400]))
@@ -1868,12 +2482,27 @@ def run(ctx: vf.Ctx):
         c.append_gate(CircuitGate(inner), 0, [0.3])
         check_roundtrip(ck, c, ('rt-frozen-in-circuitgate',), label='U1q')
 
+        # circuits with barriers / resets / measurements: implementation oracle + QProg correspondence
+        for k, (c, label) in enumerate(directed_placeholder(I)):
+            check_placeholder_roundtrip(ck, M2, c, ('rt-ph-directed', k), label)
+            ctx.count('placeholder_directed')
+        for i in range(ctx.n(110, 4000)):
+            c, label = gen_placeholder_circuit(I, rng, [p for p in good if not p[1].startswith(('U1qPi', 'Identity'))], nest_pool)
+            check_placeholder_roundtrip(ck, M2, c, ('rt-ph', i, c.num_qudits, c.num_operations, label), label)
+            ctx.count('placeholder_' + label)
+
         try:
             M2.run()
             finish_pending(ck, M2)
         except Exception:  # noqa
             import traceback
             ctx.broken_obligation('correspondence run of the extracted model failed (gate definitions)', traceback.format_exc())
+        cv = ck.creg_votes
+        ctx.cov['encoder_creg_votes'] = cv
+        ctx.cov['implementation_encoder_creg_version'] = 'inconsistent' if (cv['current'] and cv['fixed']) else \
+            'fixed' if cv['fixed'] else 'current' if cv['current'] else 'undetermined'
+        if cv['current'] and cv['fixed']:
+            ctx.broken_obligation('the encoder matches QProg.encode_with on some circuits and encode_with_fixed on others', str(cv))
     lap('roundtrips')
     # ---- directed: u0 ------------------------------------------------------------------------
     u0 = 'OPENQASM 2.0;\ninclude "qelib1.inc";\nqreg q[1];\nu0(1) q[0];\n'
@@ -1885,6 +2514,7 @@ def run(ctx: vf.Ctx):
     ctx.case(('prog', u0))
 
     # ---- (iii) translators ---------------------------------------------------------------------
+    check_ext_translators_ast(ctx, I)
     check_translators(ck, ctx.n(25, 600))
     lap('translators')
 
@@ -2004,6 +2634,16 @@ def run_case(ck: Checker, M: Model, c: dict, key):
         ck.expression(M, c['text'], sem, fval(sem), key)
     elif kind == 'program':
         check_program(ck, M, c['text'], dict(has_reset='reset' in c['text']), key)
+    elif kind == 'placeholder-roundtrip':
+        ck.ctx.case(key)
+        try:
+            circ = ck.I.L.decode(c['text'])
+        except Exception as e:  # noqa
+            sym = 'creg-redeclared' if 'Classical register redeclared' in str(e) else 'placeholder-rejected'
+            ck.ctx.violation(dict(call='roundtrip', symptom=sym), c, 'decodes', type(e).__name__ + ': ' + str(e)[:100],
+                             'the decoder rejects the encoder\'s own output' + (' (classical register declared once per measurement gate)' if sym == 'creg-redeclared' else ''))
+            return
+        check_placeholder_roundtrip(ck, M, circ, ('replay-ph', c.get('label', '')), c.get('label'))
     elif kind == 'translator':
         circ = rebuild(ck.I, c)
         if circ is not None:
